@@ -7,6 +7,7 @@ pub mod c06;
 pub mod c08;
 pub mod c10;
 pub mod c11;
+pub mod c12;
 pub mod c13;
 pub mod miri;
 
@@ -156,6 +157,14 @@ pub fn plan(id: &str) -> Option<Plan> {
                 Engine { name: "stress", salt: 2, quick: 16, thorough: 64, serial: false, run: Box::new(|s, t| c13::stress(s, t.pick(50, 500))) },
                 Engine { name: "miri", salt: 3, quick: 2, thorough: 16, serial: false, run: Box::new(|s, t| miri::run("C13", s, 1, Some(t.pick(16, 64) as u32), 0.1)) },
             ],
+            extra: None,
+        },
+        "C12" => Plan {
+            id: "C12",
+            rule: "scenario = hedge layer (max 1-4 attempts; default/fixed 0,10,50ms/no_delay/per-attempt delay table) + 1-3 requests whose k-th attempt has scripted latency from {0, d-1ms, d, d+1ms, 2d, 3d, 10d, never} and outcome ok/err; oracle from the observed start instant of every inner call and the observed completions; non-trivial iff >=2 attempts started and >=1 attempt failed; distinct = (attempt start instants, resolution, config) signature",
+            assumptions: BASE_ASSUMPTIONS.to_vec(),
+            floor: 50,
+            engines: vec![Engine { name: "sim", salt: 1, quick: 6000, thorough: 400_000, serial: false, run: Box::new(|s, t| c12::scenario(s, t)) }],
             extra: None,
         },
         _ => return None,
